@@ -172,9 +172,16 @@ def W : T → Nat
   | last _ c => 1 + W c
   | cons _ c _ _ r => 1 + W c + 1 + W r
 
+/-- `rootItemStack`: an empty tree (entry-less, childless top node) starts with an empty stack -/
+def rootItems (p : Bool) (t : T) : List Item :=
+  match t with
+  | last _ nil => []
+  | nil => []
+  | t => [Item.link p t]
+
 def init (oldRoot : Option (Bool × T)) (newP : Bool) (newRoot : T) : St :=
-  { old := match oldRoot with | none => [] | some (p, t) => [Item.link p t],
-    new := [Item.link newP newRoot], memoOld := [], memoNew := [] }
+  { old := match oldRoot with | none => [] | some (p, t) => rootItems p t,
+    new := rootItems newP newRoot, memoOld := [], memoNew := [] }
 
 def isEntryEv : DEv → Bool
   | .add _ _ | .rem _ _ | .chg _ _ _ => true
